@@ -13,6 +13,9 @@ func init() {
 			c.guard("RW.BRANCHCTX", r.ruleBranchCtx)
 			c.guard("RW.SIG", r.ruleSig)
 			c.guard("RW.ORACLE", r.ruleOracles)
+			// range over func / pointer-to-array / type parameter: rejected or left native, never lowered
+			// through an iterator that does not exist for them
+			c.guard("RW.RANGEDISPATCH", r.ruleRangeDispatch)
 			// C12 answers for the unsupported forms: labelled break/continue, goto, fallthrough out of a yielding case
 			c.keep(func(o Obligation) bool {
 				if o.Rule == "RW.BRANCHCTX" {
@@ -20,6 +23,9 @@ func init() {
 						return false // rejecting with a diagnostic is always admissible for C12 (it is C11's concern)
 					}
 					return strings.HasSuffix(o.Construct, " L") || strings.Contains(o.Construct, ": goto") || strings.Contains(o.Construct, ": fallthrough")
+				}
+				if o.Rule == "RW.RANGEDISPATCH" { // the supported kinds are C04's
+					return strings.Contains(o.Construct, "pointer") || strings.Contains(o.Construct, "func") || strings.Contains(o.Construct, "type parameter") || strings.Contains(o.Construct, "typeparam")
 				}
 				return o.Rule != "RW.NOLOSS" // loss of a part of a supported statement is C01's
 			})
@@ -136,8 +142,20 @@ func init() {
 			r := newRwRT(c)
 			c.guard("RW.TMPL.RANGE", r.ruleTmplRange)
 			c.guard("RW.RANGEDISPATCH", r.ruleRangeDispatch)
+			// "break/continue work": a range loop that stays native (no yield in it, or an operand kind that
+			// is not lowered) is a break/continue target of its own in the branch pass
+			c.guard("RW.BRANCHCTX", r.ruleBranchCtx)
 			s := newSeqRT(c)
 			s.ruleIters()
+			c.keep(func(o Obligation) bool {
+				if o.Rule == "RW.BRANCHCTX" {
+					return strings.Contains(o.Construct, "Range") && (strings.HasSuffix(o.Construct, ": break") || strings.HasSuffix(o.Construct, ": continue"))
+				}
+				return true
+			})
+			c.min("RW.TMPL.RANGE", 12)
+			c.min("RW.RANGEDISPATCH", 8)
+			c.min("RW.BRANCHCTX", 40)
 		},
 	})
 	register(propSpec{
@@ -187,14 +205,21 @@ func init() {
 			c.guard("RW.TMPL.CONSUMER", r.ruleConsumerDispatch)
 			c.guard("RW.TMPL.ITERTYPE", r.ruleIterType)
 			c.guard("RW.FILEPASSES", r.ruleFilePasses)
+			// pull-style code: a consumer's closure `func() bool { return cur.MoveNext() }` over its own iterator
+			// variable must keep reading the variable at each call (a method value binds the receiver once)
+			c.guard("OPT.ETA", r.ruleOptEta)
 			c.keep(func(o Obligation) bool {
-				if o.Rule == "RW.FILEPASSES" {
+				switch o.Rule {
+				case "RW.FILEPASSES":
 					return strings.HasPrefix(o.Construct, "order of passes")
+				case "OPT.ETA":
+					return strings.HasPrefix(o.Construct, "callee is a method value") || o.Construct == "pattern shape" || o.Construct == "liveness"
 				}
 				return true
 			})
 			c.min("RW.TMPL.CONSUMER", 2)
 			c.min("RW.TMPL.ITERTYPE", 3)
+			c.min("OPT.ETA", 3)
 		},
 	})
 }
@@ -208,6 +233,13 @@ func init() {
 			r := newRwRT(c)
 			s := newSeqRT(c)
 			c.guard("OPT.WHITELIST", func() { r.ruleOptWhitelist(s) })
+			// eliding the Delay around a constructor call turns "a fresh term per run of the enclosing loop" into
+			// "one term value entered again and again": sound only if every term is re-enterable (a second run of
+			// the same Seq value starts from scratch, overlapping runs keep their own continuations, no state
+			// outside the per-run closure)
+			c.guard("SEQ.FOR", s.ruleFor)
+			c.guard("SEQ.OVERLAP", s.ruleOverlap)
+			c.guard("SEQ.STATE", s.ruleState)
 			c.guard("OPT.RULES", r.ruleOptRules)
 			c.guard("OPT.ETA", r.ruleOptEta)
 			c.guard("OPT.ORDER", r.ruleOptOrder)
@@ -216,6 +248,9 @@ func init() {
 			c.keep(func(o Obligation) bool {
 				if o.Rule == "OPT.ORDER" {
 					return o.Construct == "file using seq" || o.Construct == "second file using seq" || o.Construct == "imports cleaned after the last optimisation"
+				}
+				if o.Rule == "SEQ.FOR" {
+					return strings.Contains(o.Construct, "second run")
 				}
 				return o.Rule != "SEQ.LAZY"
 			})
@@ -294,16 +329,23 @@ func init() {
 			// tags and guards stay where the statement is (a hoisted tag runs before the initialiser / a step early)
 			c.guard("RW.NOLOSS", r.ruleCover)
 			c.guard("RW.TMPL.IF", r.ruleTmplStmts)
+			// the operand of a generator's `return <expr>` is evaluated by the advance that reaches the return
+			c.guard("RW.TMPL.RETURN", r.rulePass0)
 			c.guard("OPT.WHITELIST", func() { r.ruleOptWhitelist(s) })
 			c.guard("OPT.RULES", r.ruleOptRules)
 			c.keep(func(o Obligation) bool {
 				switch o.Rule {
 				case "RW.DISPATCH", "RW.FIELDCOV", "RW.DEEPVISIT": // rejection and yield coverage are C12's
 					return false
+				case "RW.TMPL.HOIST":
+					return false
+				case "RW.TMPL.RETURN":
+					return !strings.HasPrefix(o.Construct, "nested ordinary closure")
 				}
 				return true
 			})
 			c.min("RW.NOLOSS", 20)
+			c.min("RW.TMPL.RETURN", 4)
 			c.min("RW.TMPL.SWITCH.GUARD", 4)
 			c.min("SEQ.FOR", 6)
 			c.min("SEQ.GEN", 10)
@@ -382,8 +424,13 @@ func init() {
 			c.guard("DET.GENSYM", r.ruleGensym)
 			c.guard("DET.TMP", r.ruleTmpDir)
 			c.guard("RW.TMPL.RANGE", r.ruleTmplRange)
+			// "regardless of outputs of earlier runs present on disk": the outputs carry the negation of the very tag
+			// the sources are loaded under, also for a custom tag, so a later run never sees them
+			c.guard("GEN.TAG", r.ruleGoGen)
 			c.keep(func(o Obligation) bool {
 				switch o.Rule {
+				case "GEN.FILTER", "GEN.NAME":
+					return false // C16
 				case "RW.TMPL.RANGE", "RW.TMPL.RANGE.TUPLE":
 					return false // shape of the loop is C04's; only the naming of the temporary matters here
 				case "RW.FILEPASSES":
